@@ -42,7 +42,11 @@ pub fn plan(prop: &str, tier: Tier) -> Option<(&'static str, Vec<Job>)> {
         ],
         "C14" => vec![Job::new("partlog", if q { 1400 } else { 30_000 }).caches(all3)],
         "C15" => vec![Job::new("partlog", if q { 1400 } else { 30_000 }).caches(all3)],
-        "C16" => vec![Job::new("partlog", if q { 1200 } else { 30_000 }).caches(all3)],
+        "C16" => vec![
+            Job::new("partlog", if q { 1200 } else { 30_000 }).caches(all3),
+            // statistics and counts over a changing catalogue (several streams / topics, topics without partitions)
+            Job::new("catalogue", if q { 600 } else { 12_000 }).flavour("no-users").caches(&["off", "big"]),
+        ],
         "C17" => vec![Job::new("partlog", if q { 1600 } else { 40_000 }).caches(&["off", "big"])],
         "C18" => vec![
             Job::new("partlog", if q { 1400 } else { 30_000 }).caches(all3),
